@@ -3,6 +3,7 @@ import UralModel.Lemmas.QuoteIdem
 import UralModel.Lemmas.QuoteUpper
 import UralModel.Lemmas.QuoteControl
 import UralModel.Gen.QuoteTables
+import UralModel.Model.Canonicalize
 /-!
 # C14 — Safe quoting/unquoting preserves decoded content and delimiters
 -/
@@ -609,6 +610,42 @@ theorem api_delimiters (s : Str) :
     exact unquote_delimiters U hU d h1 h2 h3 s
   obtain ⟨p1, p2, p3, _⟩ := tables_percent_unsafe
   exact ⟨key _ p1 _ (by decide), key _ p2 _ (by decide), key _ p3 _ (by decide)⟩
+
+/-- the functions `canonicalize_url`'s model applies to the components are these four
+configurations (and `safely_quote`, `upper_quoted` themselves): the theorems above are about
+what the public API runs -/
+theorem api_functions :
+    Canonicalize.unquoteAuthItem = safelyUnquote Gen.Quote.unsafeForAuthItem ∧
+    Canonicalize.unquotePath = safelyUnquote Gen.Quote.unsafeForPath ∧
+    Canonicalize.unquoteQueryItem = safelyUnquote Gen.Quote.unsafeForQueryItem ∧
+    Canonicalize.unquoteFragment = safelyUnquote Gen.Quote.unsafeForFragment ∧
+    (∀ url dp, Canonicalize.cleanUrl url dp =
+      UrlParts.ensureProtocol (upperQuoted (strip (UrlParts.stripControl url))) dp) :=
+  ⟨rfl, rfl, rfl, rfl, fun _ _ => rfl⟩
+
+/-- `safely_unquote_qsl` / `safely_quote_qsl` (key/value lists): same shape — as many pairs, a
+missing value stays missing —, keys and values decode to the same bytes, and each of the two,
+and `quote ∘ unquote`, is idempotent -/
+theorem qsl_contract (l : List (Str × Option Str)) :
+    (Canonicalize.unquoteQsl l).map (fun p => (pctStr p.1, p.2.map pctStr)) =
+      l.map (fun p => (pctStr p.1, p.2.map pctStr)) ∧
+    (Canonicalize.quoteQsl l).map (fun p => (pctStr p.1, p.2.map pctStr)) =
+      l.map (fun p => (pctStr p.1, p.2.map pctStr)) ∧
+    Canonicalize.unquoteQsl (Canonicalize.unquoteQsl l) = Canonicalize.unquoteQsl l ∧
+    Canonicalize.quoteQsl (Canonicalize.quoteQsl l) = Canonicalize.quoteQsl l ∧
+    Canonicalize.quoteQsl (Canonicalize.unquoteQsl (Canonicalize.quoteQsl (Canonicalize.unquoteQsl l))) =
+      Canonicalize.quoteQsl (Canonicalize.unquoteQsl l) := by
+  obtain ⟨_, _, hU, _⟩ := tables_percent_unsafe
+  obtain ⟨_, _, hA, _⟩ := tables_ascii
+  have hp := unquote_pct _ hU
+  have hi := unquote_idempotent _ hU hA
+  have hq := quote_unquote_idempotent _ hU hA
+  simp only [Canonicalize.unquoteQsl, Canonicalize.quoteQsl, Canonicalize.unquoteQueryItem,
+    List.map_map]
+  refine ⟨?_, ?_, ?_, ?_, ?_⟩ <;>
+  · apply List.map_congr_left
+    rintro ⟨k, v⟩ _
+    cases v <;> simp [hp, hi, hq, quote_pct, quote_idempotent]
 
 /-! ## non-vacuity: the four regenerated configurations on a string with every kind of token -/
 
